@@ -23,7 +23,7 @@ TIERS = {
 
 META = {
     "level": "exploration",
-    "rule": ("Each case draws a synthetic image (48-120 px, SIN/TAN/ZEA/ARC/STG projection at four sky positions incl. RA wrap and dec -75, "
+    "rule": ("Each case draws a synthetic image (48-120 px, SIN/TAN/ZEA/ARC/STG projection at five reference positions incl. RA wrap, dec -75 and a negative CRVAL1, "
              "0-40 injected Gaussians: scattered, blended groups, barely-detected 'tiny' islands, negative sources, a grid of "
              "> 20 separated sources, NaN patch, noise or nearly noise-free) and a history of finder operations: blind find "
              "(options drawn: island rows, covariance on/off, max_summits, polarity, clip levels), the same operation repeated "
